@@ -50,6 +50,16 @@ CLAIMED = {
             'what was visible, so hidden cells/rows that reappear on growth are solver witnesses.'),
     'C18': ('4 C18', 'HT/HTS/TBC and the default stops decided on a symbolic width 1..=140 with up to three symbolic stops '
             '(stale stops beyond the width included); the sort and scan of tab() are executed symbolically.'),
+    'C08': ('4 C08', 'select_graphic_rendition (API and CSI m) with symbolic codes against an independent left-to-right '
+            'fold with its own xterm palette formula; every attribute field is a separate solver query; a character '
+            'drawn afterwards must carry exactly the folded rendition.'),
+    'C12': ('4 C12', 'set_mode/reset_mode with lists of symbolic mode numbers and a symbolic private flag from symbolic '
+            'states; z3 decides the resulting mode set for an arbitrary probe number and every documented side effect '
+            '(132-column switch executed for real, homing, reverse video on every cell, visibility), plus the DECCOLM '
+            'round trip.'),
+    'C20': ('4 C20', 'The four 256-entry tables are compared with independently transcribed tables by one solver query per '
+            'table over a symbolic index; draw of a symbolic code point is compared with the reference translation for '
+            'every G0/G1 designation and shift state; SO/SI/designation through the API and the recogniser.'),
 }
 
 ALL = ['C%02d' % i for i in range(1, 21)]
